@@ -53,7 +53,7 @@ def check(chk):
     cfg = f.cfg()
     ej = [(n, c) for n, c in cfg.calls_named("_eject_ball")]
     gates = [n for n in cfg.nodes_where(lambda n: n.kind == "stmt" and n.has_await() and "wait_for_ready_to_receive" in n.text(200))]
-    chk.require(ej, "C04: _eject_ball vanished from _ejecting")
+    chk.need(ej, "DOM-10", "_ejecting fires the ball through _eject_ball", f)
     chk.ob("DOM-10", "the eject loop asks the target whether it is ready to receive", bool(gates), f.where(), construct=f.ident, text="gate present")
     heads = _loop_heads(cfg)
     for n, c in ej:
